@@ -2,6 +2,7 @@
 // prints the instruction listing, a per-assembly_step trace of (result, state, stack height,
 // frame positions/bases) and the final observation of a full run.
 // stdin:  "<max_runtime_ms>;<tick_us>;<max_loop>\t<hex sqf text>"      stdout: listing \t trace \t final
+// environment: VH_FILES=<directory> is mapped as the virtual directory /cv (files for execVM)
 #define VH_VIRTUAL_CLOCK
 #include "sqfrt.hpp"
 #include "opcodes/common.h"
@@ -74,6 +75,8 @@ static VM* make(long max_ms, long tick_us, size_t max_loop)
     vh::g_clock_tick_ns = tick_us * 1000;
     auto vm = new VM(max_ms, true);
     vm->rt->configuration().max_loop_iterations_in_unscheduled = max_loop;
+    // scripts started from files (execVM): the directory named by VH_FILES is the virtual directory /cv
+    if (const char* d = getenv("VH_FILES")) vm->rt->fileio().add_mapping(d, "/cv");
     return vm;
 }
 
